@@ -134,6 +134,24 @@ where
         Some(Inst::combined(b))
     })
 }
+/// `clone_from` into an instance keyed with a NEAR key: same length, only the last byte differs
+/// (so any "nothing changed, skip the copy" shortcut keyed on a prefix of the state is exposed).
+fn mk_clone_from_near<T>(k: &[u8]) -> Made
+where
+    T: KeyInit + Clone + BlockCipherEncrypt + BlockCipherDecrypt + Send + Sync + 'static,
+{
+    guard(|| {
+        let a = T::new_from_slice(k).ok()?;
+        let mut near = k.to_vec();
+        if let Some(l) = near.last_mut() {
+            *l ^= 0x5A;
+        }
+        let mut b = T::new_from_slice(&near).ok()?;
+        b.clone_from(&a);
+        drop(a);
+        Some(Inst::combined(b))
+    })
+}
 fn mk_pair<E, D>(k: &[u8]) -> Made
 where
     E: KeyInit + BlockCipherEncrypt + Send + Sync + 'static,
@@ -552,6 +570,7 @@ macro_rules! aes_family {
         add(n(stringify!($comb)), "new_fixed", mk_fixed::<$krate::$comb>, false);
         add(n(stringify!($comb)), "clone", mk_clone::<$krate::$comb>, false);
         add(n(stringify!($comb)), "clone_from", mk_clone_from::<$krate::$comb>, false);
+        add(n(stringify!($comb)), "clone_from_near", mk_clone_from_near::<$krate::$comb>, false);
         add(n(stringify!($comb)), "from_enc_ref", mk_comb_from_ref::<$krate::$enc, $krate::$comb>, false);
         add(n(stringify!($comb)), "from_enc_val+clone", mk_comb_from_val::<$krate::$enc, $krate::$comb>, false);
         add(n(concat!(stringify!($enc), "+", stringify!($dec))), "new+new", mk_pair::<$krate::$enc, $krate::$dec>, true);
@@ -574,6 +593,7 @@ macro_rules! kuz_family {
         add(n("Kuznyechik"), "new_fixed", mk_fixed::<$krate::Kuznyechik>, false);
         add(n("Kuznyechik"), "clone", mk_clone::<$krate::Kuznyechik>, false);
         add(n("Kuznyechik"), "clone_from", mk_clone_from::<$krate::Kuznyechik>, false);
+        add(n("Kuznyechik"), "clone_from_near", mk_clone_from_near::<$krate::Kuznyechik>, false);
         add(n("Kuznyechik"), "from_enc_ref", mk_comb_from_ref::<$krate::KuznyechikEnc, $krate::Kuznyechik>, false);
         add(n("Kuznyechik"), "from_enc_val+clone", mk_comb_from_val::<$krate::KuznyechikEnc, $krate::Kuznyechik>, false);
         add(n("KuznyechikEnc+KuznyechikDec"), "new+new", mk_pair::<$krate::KuznyechikEnc, $krate::KuznyechikDec>, true);
@@ -590,6 +610,7 @@ macro_rules! simple {
         $v.push(e($name, "new_fixed", $family, $prop, $krate, vec![<$t as KeySizeUser>::KeySize::USIZE], mk_fixed::<$t>, $rf, $evp, false));
         $v.push(e($name, "clone", $family, $prop, $krate, $lens, mk_clone::<$t>, $rf, $evp, false));
         $v.push(e($name, "clone_from", $family, $prop, $krate, $lens, mk_clone_from::<$t>, $rf, $evp, false));
+        $v.push(e($name, "clone_from_near", $family, $prop, $krate, $lens, mk_clone_from_near::<$t>, $rf, $evp, false));
     }};
 }
 macro_rules! simple_noclone {
